@@ -380,6 +380,9 @@ func (m *c18Machine) value() (any, error) {
 			err = context.DeadlineExceeded
 		case "wraps-canceled":
 			err = fmt.Errorf("op %d: %w", idx+1, context.Canceled)
+		case "wraps-fatal":
+			// a plain error (not wrapped by FatalError) that has a fatal error further down its chain
+			err = fmt.Errorf("op %d: %w", idx+1, bigbuff.FatalError(&c18Err{fmt.Sprintf("deep#%d", idx+1)}))
 		case "value":
 			err = c18ValErr{idx + 1}
 		case "uncomparable":
@@ -545,6 +548,19 @@ func (m *c18Machine) inspect() (int, *c18Violation) {
 			}
 		default:
 			// no call at all, or the last call failed plainly: only a cancelled context ends the loop
+			if rd.ctxErrAtFinish == nil && last != nil && last.dir.plainKind == "wraps-fatal" {
+				// the library treats such an error as plain and goes on. Had it stopped here, that would only be
+				// defensible as "this was a fatal error", and then the error it returns must not contain a fatal
+				// wrapper at any depth and the call's result must come with it
+				if c18ChainHasFatal(rd.err) {
+					return 0, c18V("C18/fatal-wrapper-returned", "call %d returned a plain error whose chain contains a FatalError; the closure stopped and returned %v (%T), which still contains the fatal wrapper", len(rd.calls), rd.err, rd.err)
+				}
+				if rd.err == nil || rd.res != last.res {
+					return 0, c18V("C18/gave-up-without-cause", "the closure returned (%v, %v) after call %d failed with a plain error wrapping a fatal one, although the context is not cancelled", rd.res, rd.err, len(rd.calls))
+				}
+				rd.endClass = "plain-wrapping-fatal-ended-the-loop"
+				break
+			}
 			if rd.ctxErrAtFinish == nil {
 				if last == nil {
 					return 0, c18V("C18/gave-up-without-cause", "the closure returned (%v, %v) without calling the operation although the context is not cancelled", rd.res, rd.err)
@@ -649,7 +665,7 @@ func (m *c18Machine) drawDirective(t *rapid.T, kind int, rd *c18Round) c18Direct
 	d := c18Directive{kind: kind, withRes: rapid.Bool().Draw(t, "withRes")}
 	switch kind {
 	case c18Plain:
-		d.plainKind = rapid.SampledFrom([]string{"ptr", "ptr", "ptr", "ptr", "value", "canceled", "deadline", "wraps-canceled", "uncomparable"}).Draw(t, "plainKind")
+		d.plainKind = rapid.SampledFrom([]string{"ptr", "ptr", "ptr", "ptr", "value", "canceled", "deadline", "wraps-canceled", "uncomparable", "wraps-fatal"}).Draw(t, "plainKind")
 	case c18Fatal:
 		d.depth = rd.depth
 		d.sentinel = rapid.SampledFrom([]string{"ptr", "ptr", "errors.New", "value", "wrapping", "canceled"}).Draw(t, "sentinel")
@@ -1015,4 +1031,27 @@ func TestC18Retry(t *testing.T) {
 			c18Run(t, st)
 		})
 	})
+}
+
+// c18ChainHasFatal reports whether err or anything reachable through Unwrap is bigbuff's fatal wrapper.
+func c18ChainHasFatal(err error) bool {
+	for depth := 0; err != nil && depth < 64; depth++ {
+		if strings.Contains(fmt.Sprintf("%T", err), "fatalError") {
+			return true
+		}
+		switch u := err.(type) {
+		case interface{ Unwrap() error }:
+			err = u.Unwrap()
+		case interface{ Unwrap() []error }:
+			for _, e := range u.Unwrap() {
+				if c18ChainHasFatal(e) {
+					return true
+				}
+			}
+			return false
+		default:
+			return false
+		}
+	}
+	return false
 }
